@@ -44,9 +44,9 @@ CHECKS = {
  "C12": ("model_checking", "TLC on Transcript.tla with observed hashed sets + per-atom substitution observations validated by TLC",
          "for every ChallengeInput type and both composite proofs every non-response atom of the wire form is replaced by another valid atom and the recorded transcript / challenge is compared; "
          "builder challenge = proof challenge and challenge = SHA3(transcript) are checked; TLC decides Binding/FirstMessageHashed on Transcript.tla for the observed sets", "6 C12"),
- "C14": ("model_checking", "TLC on AtomFlow.tla (NoReuse, with RERANDOMIZE spec mutant) + atoms of real multi-channel histories validated by TLC",
+ "C14": ("model_checking", "TLC on AtomFlow.tla (NoReuse, NoSecretLeak; three spec mutants) and Hiding.tla (commitment-scalar space; two spec mutants) + atoms of real multi-channel histories and the commitment scalars recovered from honest proofs validated by TLC",
          "every 32/48/96-byte atom of every message of real histories (3 channels, refused replies, closes from every stage, one close under a zero re-randomiser) is interned and TLC checks against the "
-         "merchant's accumulated view and the secrets held in the customer state (Trace_Atoms: NoReuse, NoSecretLeak)", "6 C14"),
+         "merchant's accumulated view and the secrets held in the customer state (Trace_Atoms: NoReuse, NoSecretLeak); the rank of the commitment-scalar vectors of honest establish / pay proofs equals the number of free scalars of the design (Trace_Hiding)", "6 C14"),
  "C15": ("model_checking", "TLC on Wire.tla / WireRoles.tla (role table + decoder machine) + every leaf x every encoding class of every serializable type validated by TLC",
          "62+ types of both crates: honest values round-trip byte for byte; each leaf of each wire form is replaced by each invalid / boundary class and TLC decides from the role table (struct, field, inside a revocation pair) "
          "whether decoding must fail; decoded customer stages are continued (C20 twins) and a restored customer runs payments", "6 C15"),
